@@ -3,11 +3,12 @@ From Coq Require Extraction.
 From Coq Require Import ExtrOcamlBasic.
 From Coq Require Import List ZArith NArith.
 From Coq.Strings Require Import Byte.
-From Muduo Require Import Base_Bytes Gen_C20 C20_Model.
+From Muduo Require Import Base_Bytes Gen_C20 Gen_C20Net C20_Model C20_NetModel C20_TzifModel.
 Extraction "model.ml" Gen_C20.getYearMonthDay Gen_C20.getJulianDayNumber Gen_C20.weekDay
   C20_Model.break_utc C20_Model.fromUtc C20_Model.toLocalTime C20_Model.fromLocalTime
   C20_Model.wf C20_Model.sorted_utc C20_Model.ts_toString C20_Model.ts_toFormatted
-  C20_Model.inet_make C20_Model.inet_port_only C20_Model.toIp C20_Model.toIpPort C20_Model.port_load
-  C20_Model.pton4 C20_Model.ntop4
-  Base_Bytes.be_encode Base_Bytes.be_decode Base_Bytes.be_decode_signed
+  C20_NetModel.inet_make C20_NetModel.inet_port_only C20_NetModel.toIp C20_NetModel.toIpPort C20_NetModel.inet_port
+  C20_NetModel.pton4 C20_NetModel.ntop4 C20_NetModel.be_op C20_NetModel.AF_INET6
+  C20_TzifModel.tzif_parse
+  Base_Bytes.to_signed
   Base_Bytes.xbyte_of_N Base_Bytes.xN_of_byte.
